@@ -21,10 +21,13 @@
           C13_roundtrip_noF4_statement       REFUTED  (C13_roundtrip_noF4_refuted: F15, two witnesses)
           C13_roundtrip_guarded_statement    stated in full, NOT proved (needs a print->lex->parse theory);
                                              validated by correspondence only (harness/c13.py)
-          C13_roundtrip_partial              PROVED for an infinite family: flat AND / OR / implicit
-                                             operations of any number >= 2 of plain words *)
+          C13_roundtrip_partial              PROVED for an infinite family: a flat AND or OR operation of
+                                             any number >= 2 of plain words (non-empty, lowercase ASCII
+                                             letters), by induction on the number of words, directly on
+                                             the lexer and LR-driver models with the generated tables
+                                             (proofs/AutoHeadTailRoundtrip.v) *)
 Require Import Base Decimal Tree GenTree GenVisitors GenParser Visitor Eq Traverse Print Lexer Actions LR Parser.
-Require Import AutoHeadTail TreeInd TraverseProofs AutoHeadTailProofs.
+Require Import AutoHeadTail TreeInd TraverseProofs AutoHeadTailProofs AutoHeadTailRoundtrip.
 
 (* ---------------------------------------------------------------- tie obligations on generated data *)
 Lemma aht_methods_known_ok : aht_methods_known = true.
@@ -78,6 +81,13 @@ Definition C13_roundtrip_guarded_statement : Prop :=
   forall t, well_formed t -> layout_free t -> expressible t ->
             f4_patternb t = false -> f15_patternb t = false -> roundtrips t.
 
+(* the proved family: AND / OR of at least two plain words (any number, any lengths) *)
+Definition flat_family (t : item) : Prop :=
+  exists k w1 w2 l, (k = KAnd \/ k = KOr) /\ forallb plain_word (w1 :: w2 :: l) = true /\
+                    t = Op k meta0 (map W (w1 :: w2 :: l)).
+
+Definition C13_roundtrip_partial_statement : Prop := forall t, flat_family t -> roundtrips t.
+
 (* ---------------------------------------------------------------- theorems *)
 
 Theorem C13_fails_exactly : C13_fails_exactly_statement.
@@ -92,6 +102,22 @@ Proof. intros t t' Hg H. apply aht_some in H. destruct H as [_ H]. subst. apply 
 Theorem C13_idempotent : C13_idempotent_statement.
 Proof. exact aht_idempotent. Qed.
 
+Theorem C13_roundtrip_partial : C13_roundtrip_partial_statement.
+Proof.
+  intros t [k [w1 [w2 [l [[->| ->] [Hp ->]]]]]]; [exact (and_roundtrip w1 w2 l Hp)|exact (or_roundtrip w1 w2 l Hp)].
+Qed.
+
+(* the family lies inside the guards of the full statement *)
+Example C13_family_nonvacuous :
+  let t := Op KOr meta0 (map W [[102;111;111]; [98;97;114]; [98;97;122]; [113;117;120]]%N) in
+  flat_family t /\ layout_free t /\ expressible t /\ f4_patternb t = false /\ f15_patternb t = false /\
+  roundtripb t = true.
+Proof.
+  split.
+  - exists KOr, [102;111;111]%N, [98;97;114]%N, [[98;97;122]; [113;117;120]]%N. split; [auto|]. split; reflexivity.
+  - vm_compute. auto 10.
+Qed.
+
 Lemma roundtrips_b t : roundtrips t -> roundtripb t = true.
 Proof.
   intros [t' [b [H1 [H2 H3]]]]. unfold roundtripb. rewrite H1, H2. exact H3.
@@ -100,7 +126,6 @@ Qed.
 Lemma wfb_ok t : all_nodesb wf_nodeb t = true -> well_formed t.
 Proof. apply all_nodesb_spec. exact wf_nodeb_ok. Qed.
 
-Definition W (s : str) : item := Term KWord meta0 s.
 
 (* F4: Unknown(And(a, b), Prohibit(c)) prints `a AND b -c`, which parses as And(a, Unknown(b, -c)) *)
 Definition f4_witness : item :=
@@ -202,3 +227,4 @@ Print Assumptions C13_only_fills_empty.
 Print Assumptions C13_idempotent.
 Print Assumptions C13_roundtrip_refuted.
 Print Assumptions C13_roundtrip_noF4_refuted.
+Print Assumptions C13_roundtrip_partial.
